@@ -72,7 +72,7 @@ def oracle_selftest(G, direct, anti, N):
         if abs(a - m) <= 5 * se + 1e-3:
             REC.ok("C04.oracle_selftest_mc")
         else:
-            REC.fail("C04.oracle_error", {"problem": "oracle disagrees with Monte-Carlo", "pair": [int(i), int(j)], "oracle": a, "mc": m, "se": se})
+            REC.harness_problem("C04 oracle disagrees with Monte-Carlo", {"pair": [int(i), int(j)], "oracle": a, "mc": m, "se": se})
 
 
 def shards(tier, seed):
